@@ -19,6 +19,10 @@ An `ast` pass adds two value-preserving things around the unchanged statements:
                             rem != 0 and (rem < 0) != (r64 < 0) else q),  q, rem = truncating quotient/remainder
   so that the premise needs no 128-bit multiplier and all solver terms are 64 bits wide.  (These are representations of the same integers; the driver re-executes every
   path concretely with real ints and compares.)
+* every comparison `l cmp r` is evaluated by `cmpop(cmp, l, r)`: CPython's rich-comparison protocol
+  (`operator.lt` ...); a symbolic truth value is re-expressed as the signed comparison of the 64-bit
+  operand patterns (the same truth value, operands being in range), so that branch conditions of the
+  oracle and of the compiled code are syntactically comparable.
 * the name `range` is bound to `sym_range`, the language-reference meaning of `range(a)` /
   `range(a, b)` as a lazy iterator (i = a; while i < b: yield i; i += 1), so that a symbolic bound
   forks once per iteration instead of having to be made concrete.
@@ -105,6 +109,22 @@ def _n_floordiv(l64, r64):
 _NORMAL = {"Add": _n_add, "Sub": _n_sub, "Mult": _n_mul, "FloorDiv": _n_floordiv}
 
 
+_CMPS = {"Lt": operator.lt, "LtE": operator.le, "Gt": operator.gt, "GtE": operator.ge, "Eq": operator.eq,
+         "NotEq": operator.ne}
+_CMP64 = {"Lt": lambda a, b: a < b, "LtE": lambda a, b: a <= b, "Gt": lambda a, b: a > b, "GtE": lambda a, b: a >= b,
+          "Eq": lambda a, b: a == b, "NotEq": lambda a, b: a != b}
+
+
+def cmpop(op, l, r):
+    v = _CMPS[op](l, r)         # CPython's rich comparison protocol
+    if type(v) is not SymBool or type(l) not in (int, SymInt) or type(r) not in (int, SymInt) \
+            or not (in64(l) and in64(r)) or core.ENG.W <= 64:
+        return v
+    # both operands lie in [-2**63, 2**63): the comparison of the integers is the signed comparison of
+    # their 64-bit patterns
+    return SymBool(_CMP64[op](core.to_bv(l, 64), core.to_bv(r, 64)))
+
+
 def sym_range(*args):
     if len(args) == 1:
         lo, hi = 0, args[0]
@@ -113,9 +133,9 @@ def sym_range(*args):
     else:
         raise TypeError("range with a step is outside the subset")
     i = lo
-    while i < hi:
+    while cmpop("Lt", i, hi):
         yield i
-        i = i + 1
+        i = binop("Add", i, 1)
 
 
 class _Instrument(ast.NodeTransformer):
@@ -127,6 +147,14 @@ class _Instrument(ast.NodeTransformer):
     def visit_BinOp(self, node):
         self.generic_visit(node)
         return ast.copy_location(self._call(node.op, node.left, node.right), node)
+
+    def visit_Compare(self, node):
+        self.generic_visit(node)
+        if len(node.ops) != 1 or type(node.ops[0]).__name__ not in _CMPS:
+            return node
+        return ast.copy_location(ast.Call(func=ast.Name(id="__cmpop", ctx=ast.Load()),
+                                          args=[ast.Constant(value=type(node.ops[0]).__name__), node.left,
+                                                node.comparators[0]], keywords=[]), node)
 
     def visit_AugAssign(self, node):
         self.generic_visit(node)
@@ -148,7 +176,7 @@ def namespace(src):
         ast.fix_missing_locations(tree)
         code = compile(tree, "<C36 program>", "exec")
         _CACHE[src] = code
-    ns = {"range": sym_range, "__binop": binop}
+    ns = {"range": sym_range, "__binop": binop, "__cmpop": cmpop}
     exec(code, ns)
     return ns
 
